@@ -150,6 +150,11 @@ func c19Cases() []c19Case {
 		}, Want: func(w *World) []c19Want {
 			return []c19Want{{s3event.EventObjectRemovedDeleteObjects, w.Key, -1, ""}}
 		}},
+		{Name: "DeleteObjects one key listed twice", Req: func(w *World) *gw.Req {
+			return NewReq("POST", "/"+w.Bucket, "delete", nil, []byte("<Delete><Object><Key>"+w.Key+"</Key></Object><Object><Key>"+w.Key+"</Key></Object></Delete>"))
+		}, Want: func(w *World) []c19Want {
+			return []c19Want{{s3event.EventObjectRemovedDeleteObjects, w.Key, -1, ""}}
+		}},
 		{Name: "CopyObject from an explicit source version", Req: func(w *World) *gw.Req {
 			src := w.Bucket + "/" + w.Key
 			if w.F.G.Opts.Versioning {
@@ -185,6 +190,17 @@ func c19Cases() []c19Case {
 		}},
 		{Name: "DeleteObjects one missing bucket", Fail: true, Req: func(w *World) *gw.Req {
 			return NewReq("POST", "/no-such-bucket", "delete", nil, []byte("<Delete><Object><Key>k</Key></Object></Delete>"))
+		}},
+		{Name: "DeleteObjects whose result document exceeds the response size limit", Fail: true, Req: func(w *World) *gw.Req {
+			// 1000 legal keys of 1003 bytes made of '"': about 1 MB as sent, more than 4 MiB once the answer escapes every quote
+			var b strings.Builder
+			b.WriteString("<Delete>")
+			el := strings.Repeat("\"", 250)
+			for i := 0; i < 1000; i++ {
+				fmt.Fprintf(&b, "<Object><Key>%s/%s/%s/%s%03d</Key></Object>", el, el, el, el[:247], i)
+			}
+			b.WriteString("</Delete>")
+			return NewReq("POST", "/"+w.Bucket, "delete", nil, []byte(b.String()))
 		}},
 		{Name: "PutObject access denied", Fail: true, Req: func(w *World) *gw.Req {
 			r := NewReq("PUT", gw.ObjPath(w.Other, "ev/denied"), "", nil, body)
